@@ -121,8 +121,10 @@ class ProtoExporter:
         # Create the Proto-Module
         pmod = vckt.Module()
 
-        # Create its serialized name
+        # Create its serialized name, and lay claim to it right away:
+        # the Modules instantiated below are exported before this one is complete, and none of them may take it.
         pmod.name = self.export_module_name(module)
+        self.modules_by_name[pmod.name] = ModuleMapping(module, pmod)
 
         # Create its Signal-objects, which include the hdl21.Module's Ports
         for sig in list(module.signals.values()) + list(module.ports.values()):
